@@ -121,9 +121,18 @@ def concrete_verdict(h, inp_json, out_json):
     """evaluate the harness's spec on concrete inputs/outputs: (holds: bool, failing clause labels)"""
     inp = symcodec.decode(inp_json)
     out = symcodec.decode(out_json)
-    clauses = h.spec(inp, out)
+    clauses = full_spec(h, inp, out)
     bad = _failing(clauses, None)
     return (not bad), bad
+
+def full_spec(h, inp, out):
+    """the harness's clauses plus the clause common to all of them: the call leaves the library itself alone
+    (default arguments, class-level containers); every property is quantified over later calls as well"""
+    clauses = list(h.spec(inp, out))
+    changed = out.get("library_state_changed") if isinstance(out, dict) else None
+    if changed:
+        clauses.append((f"the call does not modify default arguments or class-level state of the library ({', '.join(map(str, changed))[:200]})", z3.BoolVal(False)))
+    return clauses
 
 def _same_json(a, b):
     if isinstance(a, dict) and isinstance(b, dict) and "exc" in a and "exc" in b:
@@ -156,7 +165,7 @@ def make_path_fn(h, known_regions, do_replay=True):
         # the oracle only builds formulas: forking inside it would silently strengthen the path condition
         ctx.no_fork = True
         try:
-            clauses = h.spec(inp, out)
+            clauses = full_spec(h, inp, out)
             phi = _and(clauses)
             regs = {k: _to_bool(v) for k, v in h.regions(inp).items() if k in known_regions}
         finally:
